@@ -171,6 +171,45 @@ class LoopTx(ast.NodeTransformer):
         return head + self._cut(k, test, body, pre=pre, orelse=node.orelse)
 
 
+class CompTx(ast.NodeTransformer):
+    """list / set / dict comprehensions without conditions -> __pv.comp(kind, [iterable thunks], body thunk), so that an iterable of symbolic
+    size (one that defines __pv_comp__) can give the comprehension its denotation; over ordinary iterables __pv.comp evaluates it as CPython would.
+    Only applied when the World is created with comps=True."""
+
+    def _targets(self, t):
+        if isinstance(t, ast.Name):
+            return [t.id], False
+        if isinstance(t, ast.Tuple) and all(isinstance(e, ast.Name) for e in t.elts):
+            return [e.id for e in t.elts], True
+        return None, None
+
+    def _wrap(self, expr, gens, upto):
+        """lambda __c0, .., __c{upto-1}: expr   with the comprehension targets bound from the __ck"""
+        for k in reversed(range(upto)):
+            names, star = self._targets(gens[k].target)
+            arg = ast.Name(f"__c{k}", ast.Load())
+            lam = ast.Lambda(args=ast.arguments(posonlyargs=[], args=[ast.arg(n) for n in names], kwonlyargs=[], kw_defaults=[], defaults=[]), body=expr)
+            expr = ast.Call(lam, [ast.Starred(arg, ast.Load())] if star else [arg], [])
+        return ast.Lambda(args=ast.arguments(posonlyargs=[], args=[ast.arg(f"__c{k}") for k in range(upto)], kwonlyargs=[], kw_defaults=[], defaults=[]), body=expr)
+
+    def _rewrite(self, node, kind, body):
+        self.generic_visit(node)
+        gens = node.generators
+        if any(g.ifs or g.is_async or self._targets(g.target)[0] is None for g in gens):
+            return node
+        iters = ast.List([self._wrap(g.iter, gens, k) for k, g in enumerate(gens)], ast.Load())
+        return ast.Call(ast.Attribute(ast.Name("__pv", ast.Load()), "comp", ast.Load()), [ast.Constant(kind), iters, self._wrap(body, gens, len(gens))], [])
+
+    def visit_ListComp(self, node):
+        return self._rewrite(node, "list", node.elt)
+
+    def visit_SetComp(self, node):
+        return self._rewrite(node, "set", node.elt)
+
+    def visit_DictComp(self, node):
+        return self._rewrite(node, "dict", ast.Tuple([node.key, node.value], ast.Load()))
+
+
 class LoopSpec:
     """invariant(env) -> list of (label, SBool); variant(env) -> SInt/SReal or None;
     havoc(env, names) -> {name: fresh value} (default: by type of the current value);
@@ -251,6 +290,23 @@ class LoopRuntime:
             env = dict(env)
             env["ghost"] = self.ghost
             spec.at_exit(env, broke)
+
+    def comp(self, kind, iters, body):
+        first = iters[0]()
+        if hasattr(first, "__pv_comp__"):
+            return first.__pv_comp__(kind, iters, body)
+
+        def rec(k, vals, it):
+            for x in it:
+                if k + 1 == len(iters):
+                    yield body(*vals, x)
+                else:
+                    nxt = iters[k + 1](*vals, x)
+                    if hasattr(nxt, "__pv_comp__"):
+                        raise sym.EngineLimit("comprehension: symbolic iterable below a concrete one")
+                    yield from rec(k + 1, vals + [x], nxt)
+        out = rec(0, [], first)
+        return list(out) if kind == "list" else set(out) if kind == "set" else dict(out)
 
     def for_iter(self, it):
         if hasattr(it, "length") and hasattr(it, "item"):
@@ -374,7 +430,8 @@ class World:
     """One consistent set of shadow namespaces (per contract run): stubs and loop specs are fixed
     at creation.  stubs: {'pkg.mod:func' | 'pkg.mod:Class.meth': callable}."""
 
-    def __init__(self, stubs=None, loops=None, np_hooks=None, names=None):
+    def __init__(self, stubs=None, loops=None, np_hooks=None, names=None, comps=False):
+        self.comps = comps  # rewrite comprehensions into __pv.comp calls (iterables of symbolic size)
         self.stubs = dict(stubs or {})
         self.loops = dict(loops or {})  # 'pkg.mod:Class.meth#k' -> LoopSpec
         self.names = dict(names or {})  # 'pkg.mod' -> {global name: replacement}
@@ -527,6 +584,8 @@ class ShadowModule:
                     x.args = [ast.Constant(clsname), ast.Name(first, ast.Load())]
         # decorators are applied by Obj/ClsObj (property, classmethod, staticmethod); memoize dropped (S9)
         node.decorator_list = []
+        if w.comps:
+            node = CompTx().visit(node)
         prefix = f"{self.modname}:{qual}#"
         specs = {int(k[len(prefix):]): v for k, v in w.loops.items() if k.startswith(prefix)}
         if specs:
